@@ -3,9 +3,11 @@
  *
  * ops:  N <idx>
  *       C <si4> <len> <ma hex|-> <preset hopp count> <arfcns...> | <n_ca> <arfcns...>
- *         line format: C si4 len mahex nca a1..an npre p1..pn
+ *         line format: C si4 len mahex nca a1..an npre p1..pn nother a1 m1 .. an mn
+ *         (other: neighbour-cell / report flags, mask bits 0xfc, on any channel)
  * out:  R <rc> <hopp_len|-> <hopping...>     (hopp_len '-' when left untouched)
  *       H <arfcns carrying FREQ_TYPE_HOPP afterwards...>
+ *       X <number of channels whose flags other than FREQ_TYPE_HOPP changed>
  */
 #include <stdio.h>
 #include <stdlib.h>
@@ -20,7 +22,8 @@ int main(void)
 			printf("CASE %d\n", atoi(line + 1));
 		} else if (line[0] == 'C') {
 			char *tok, *save;
-			int si4, len, nca, npre, i, rc;
+			int si4, len, nca, npre, nother, i, rc, changed = 0;
+			uint8_t before[1024];
 			char *mahex;
 			struct gsm_sysinfo_freq *freq = calloc(1024, sizeof(*freq));
 			uint8_t *ma;
@@ -44,6 +47,14 @@ int main(void)
 				tok = strtok_r(NULL, " \n", &save);
 				freq[atoi(tok)].mask |= FREQ_TYPE_HOPP;
 			}
+			tok = strtok_r(NULL, " \n", &save); nother = tok ? atoi(tok) : 0;
+			for (i = 0; i < nother; i++) {
+				int a, m;
+				tok = strtok_r(NULL, " \n", &save); a = atoi(tok);
+				tok = strtok_r(NULL, " \n", &save); m = atoi(tok);
+				freq[a].mask |= m & 0xfc;
+			}
+			for (i = 0; i < 1024; i++) before[i] = freq[i].mask;
 			for (i = 0; i < 64; i++) hopping[i] = 0xffff;
 			*hopp_len = 0xaa;
 			rc = gsm48_decode_mobile_alloc(freq, ma, len, hopping, hopp_len, si4);
@@ -61,6 +72,9 @@ int main(void)
 			for (i = 0; i < 1024; i++)
 				if (freq[i].mask & FREQ_TYPE_HOPP) printf(" %d", i);
 			printf("\n");
+			for (i = 0; i < 1024; i++)
+				changed += (freq[i].mask & ~FREQ_TYPE_HOPP) != (before[i] & ~FREQ_TYPE_HOPP);
+			printf("X %d\n", changed);
 			free(freq); free(ma); free(hopping); free(hopp_len);
 		}
 		fflush(stdout);
